@@ -196,6 +196,49 @@ pub fn gen_short(src: &mut Src, _i: usize) -> Case {
     c
 }
 
+/// a buffer that keeps no scrollback (alternate screen, or limit 0) accumulates scrolled-out
+/// rows until the end of the call: bursts of scrolling of every kind inside ONE input - region
+/// anchored at the top or not, counts above half the height - versus the same input cut up
+pub fn gen_scroll_bursts(src: &mut Src, _i: usize) -> Case {
+    let cols = src.range(2, 7);
+    let rows = src.range(3, 9);
+    let alt = src.chance(1, 2);
+    let mut case = Case::new(cols, rows, if alt { *src.pick(&[None, Some(0), Some(3)]) } else { Some(0) });
+    let mut s = String::new();
+    if alt {
+        s.push_str(*src.pick(&["\x1b[?1049h", "\x1b[?1047h"]));
+    }
+    let mark = |s: &mut String, k: usize| {
+        for r in 0..rows {
+            s.push_str(&format!("\x1b[{};1H{}{}", r + 1, (b'A' + ((r + k) % 26) as u8) as char, (b'a' + ((r * 3 + k) % 26) as u8) as char));
+        }
+    };
+    mark(&mut s, 0);
+    match src.below(4) {
+        0 => {}
+        1 => s.push_str(&format!("\x1b[1;{}r", src.range(2, rows - 1).max(2))),
+        2 => s.push_str(&format!("\x1b[{};{}r", src.range(2, rows - 1), rows)),
+        _ => {
+            let t = src.range(1, rows - 1);
+            s.push_str(&format!("\x1b[{};{}r", t, src.range(t + 1, rows)));
+        }
+    }
+    for k in 0..src.range(2, 8) {
+        match src.below(9) {
+            0 | 1 => s.push_str(&format!("\x1b[{};1H{}", rows, "\n".repeat(src.range(1, rows + 2)))),
+            2 => s.push_str(&format!("\x1b[999;1H{}", "\n".repeat(src.range(1, 4)))),
+            3 => s.push_str(&format!("\x1b[{}S", src.range(1, rows + 1))),
+            4 => s.push_str(&format!("\x1b[H\x1b[{}M", src.range(1, rows + 1))),
+            5 => s.push_str(&format!("\x1b[{}T", src.range(1, rows))),
+            6 => s.push_str(&format!("\x1b[{};1Hxy{}", src.range(1, rows), "z".repeat(src.range(0, cols * 2)))),
+            7 => mark(&mut s, k + 1),
+            _ => s.push_str(&format!("\x1b[{};1H\x1b[{}L", src.range(1, rows), src.range(1, 3))),
+        }
+    }
+    case.calls.push(Call::FeedStr(s));
+    case
+}
+
 /// long inputs: thousands to tens of thousands of characters in one call vs chunked
 pub fn gen_long(src: &mut Src, _i: usize) -> Case {
     let (cols, rows) = if src.chance(1, 3) { (*src.pick(&[80usize, 132, 300]), *src.pick(&[24usize, 50])) } else { gen::small_size(src) };
@@ -212,7 +255,18 @@ pub fn gen_long(src: &mut Src, _i: usize) -> Case {
             // one very long string payload / text run
             let len = src.range(200, 3000);
             let body: String = (0..len).map(|k| (b'a' + (k % 26) as u8) as char).collect();
-            if src.chance(1, 2) { format!("\x1b]0;{}\x07", body) } else { body }
+            match src.below(4) {
+                0 => format!("\x1b]0;{}\x07", body),
+                1 => {
+                    // a C1 string introducer in the middle of a string payload starts another
+                    // kind of string (in which BEL is payload): the text between the BEL and
+                    // the ST stays hidden - whatever the chunking
+                    let c1 = *src.pick(&['\u{98}', '\u{9e}', '\u{9f}', '\u{90}', '\u{9d}']);
+                    let cut = body.len() / 2;
+                    format!("{}{}{}{}\x07hidden{}shown", *src.pick(&["\x1b]", "\u{9d}", "\x1b_", "\x1bP"]), &body[..cut], c1, &body[cut..], *src.pick(&["\x1b\\", "\u{9c}"]))
+                }
+                _ => body,
+            }
         } else {
             gen::frag(src, &g)
         };
@@ -262,6 +316,7 @@ pub fn run(env: &Env) -> PropRun {
     let es = enum_sequences();
     parts.push(run_part(env, "enum-sequences", es.len(), true, "47 sequence families x 4 prefixes x 2 suffixes x 2 sizes x {unlimited, limit 0}: each input fed whole, per character (feed_str and feed()), and cut at every single position", &|i| es.get(i).cloned(), &j));
     parts.push(random_part(env, "short-all-cuts", env.tier.scale(40_000, 30), &gen_short, &j));
+    parts.push(random_part(env, "scroll-bursts", env.tier.scale(12_000, 30), &gen_scroll_bursts, &j));
     parts.push(random_part(env, "long-inputs", env.tier.scale(200, 30), &gen_long, &j));
     parts.push(random_part(env, "structured", env.tier.scale(25_000, 30), &gen_structured, &j));
     parts.push(random_part(env, "raw", env.tier.scale(15_000, 30), &gen_raw, &j));
